@@ -189,6 +189,7 @@ type fctx struct {
 	fuelOut func() string              // "out of fuel" in the current context (fueled functions only)
 	resTys  []types.Type               // effective result types of the function (or function literal) being translated
 	ifaceLocals map[*types.Var]bool    // local interface variables bound once to a result of an opaque call
+	contK   func() string              // what an unlabelled continue produces in the innermost loop (nil: not allowed here)
 	inLoop  int                        // nesting depth of loops at the current statement
 }
 
@@ -973,6 +974,23 @@ func (c *fctx) mutates(body ast.Node, v *types.Var) bool {
 	return found
 }
 
+// containsContinue: an unlabelled continue that belongs to the loop enclosing n (not to a loop inside n).
+func containsContinue(n ast.Node) bool {
+	found := false
+	ast.Inspect(n, func(n ast.Node) bool {
+		switch x := n.(type) {
+		case *ast.BranchStmt:
+			if x.Tok == token.CONTINUE {
+				found = true
+			}
+		case *ast.ForStmt, *ast.RangeStmt, *ast.FuncLit:
+			return false
+		}
+		return !found
+	})
+	return found
+}
+
 func containsReturn(n ast.Node) bool {
 	found := false
 	ast.Inspect(n, func(n ast.Node) bool {
@@ -1211,6 +1229,11 @@ func (c *fctx) stmts(list []ast.Stmt, k func() string) string {
 		out := fmt.Sprintf("let %s := %s in\n", pattern(names), term)
 		out += c.writeWhole(o, r, tmp)
 		return out + next()
+	case *ast.BranchStmt:
+		if s.Tok == token.CONTINUE && s.Label == nil && c.contK != nil {
+			return c.contK() // the rest of the body is skipped: the loop state as it is now
+		}
+		c.fail(s.Pos(), "%s (only an unlabelled continue directly inside a range or counting loop is supported)", s.Tok)
 	case *ast.IfStmt:
 		return c.ifStmt(s, next)
 	case *ast.SwitchStmt:
@@ -1451,7 +1474,7 @@ func (c *fctx) ifStmt(s *ast.IfStmt, next func() string) string {
 		return pre + c.stmts(elseList, next)
 	}
 	cond := c.expr(s.Cond)
-	if !containsReturn(s.Body) && (s.Else == nil || !containsReturn(s.Else)) && !c.containsPanic(s) && !c.containsFueled(s) {
+	if !containsReturn(s.Body) && (s.Else == nil || !containsReturn(s.Else)) && !c.containsPanic(s) && !c.containsFueled(s) && !containsContinue(s) {
 		// join: the arms only update variables
 		w := c.assigned(s)
 		if len(w) == 0 {
@@ -1532,7 +1555,7 @@ func (c *fctx) switchStmt(s *ast.SwitchStmt, next func() string) string {
 			clauses = append(clauses, cc)
 		}
 	}
-	joinable := !containsReturn(s.Body) && !c.containsPanic(s.Body) && !c.containsFueled(s.Body)
+	joinable := !containsReturn(s.Body) && !c.containsPanic(s.Body) && !c.containsFueled(s.Body) && !containsContinue(s.Body)
 	var w []envKey
 	if joinable {
 		w = c.assigned(s.Body)
@@ -1595,6 +1618,9 @@ func (c *fctx) loopBodyCheck(body *ast.BlockStmt) {
 	ast.Inspect(body, func(n ast.Node) bool {
 		switch x := n.(type) {
 		case *ast.BranchStmt:
+			if x.Tok == token.CONTINUE && x.Label == nil {
+				return true // translated where it stands (range / counting loops); refused in for-cond loops
+			}
 			c.fail(x.Pos(), "%s inside a loop", x.Tok)
 		case *ast.GoStmt, *ast.DeferStmt, *ast.SelectStmt, *ast.SendStmt, *ast.LabeledStmt:
 			c.fail(n.Pos(), "%T inside a loop", n)
@@ -1655,8 +1681,12 @@ func (c *fctx) loop(s ast.Stmt, body *ast.BlockStmt, items string, itemPat func(
 		initT = tuple(initXs)
 	}
 	_ = inner
+	oldCont := c.contK
+	defer func() { c.contK = oldCont }()
 	if !mayReturn {
+		c.contK = wt
 		b := c.stmts(body.List, wt)
+		c.contK = oldCont
 		c.env = copyMap(saved)
 		var names []string
 		for _, o := range w {
@@ -1669,7 +1699,9 @@ func (c *fctx) loop(s ast.Stmt, body *ast.BlockStmt, items string, itemPat func(
 	rty := c.rawTy
 	c.retWrap = func(r string) string { return fmt.Sprintf("(Some %s, %s)", r, wt()) }
 	c.retTy = "?"
+	c.contK = func() string { return fmt.Sprintf("(@None (%s), %s)", rty, wt()) }
 	b := c.stmts(body.List, func() string { return fmt.Sprintf("(@None (%s), %s)", rty, wt()) })
+	c.contK = oldCont
 	c.retWrap, c.retTy = oldW, oldTy
 	c.env = copyMap(saved)
 	ret := c.fresh("ret")
@@ -1706,12 +1738,32 @@ func (c *fctx) rangeStmt(s *ast.RangeStmt, next func() string) string {
 	}
 	// Go reads the elements during the iteration: a body that writes the ranged slice would see
 	// its own writes, the fold over the pre-loop list would not
-	for _, k := range c.assigned(s.Body) {
-		for _, rk := range c.keysOf(s.X) {
-			if k == rk {
-				c.fail(s.X.Pos(), "range over a slice that the loop body modifies")
+	// (with the index only — for i := range xs — nothing is read from xs: the length is fixed at the
+	// start in Go too, and an in-place update xs[i] = ... is fine as long as the length stays)
+	if s.Value != nil && !isBlank(s.Value) {
+		for _, k := range c.assigned(s.Body) {
+			for _, rk := range c.keysOf(s.X) {
+				if k == rk {
+					c.fail(s.X.Pos(), "range over a slice that the loop body modifies")
+				}
 			}
 		}
+	} else {
+		// the body must not change the LENGTH of the ranged slice: no whole-slice assignment to it
+		ast.Inspect(s.Body, func(n ast.Node) bool {
+			if as, ok := n.(*ast.AssignStmt); ok {
+				for _, l := range as.Lhs {
+					if id, isId := unparen(l).(*ast.Ident); isId {
+						for _, rk := range c.keysOf(s.X) {
+							if o := c.info.Uses[id]; o != nil && rk.obj == o && rk.field == "" {
+								c.fail(l.Pos(), "assignment to the ranged slice %s inside the loop", id.Name)
+							}
+						}
+					}
+				}
+			}
+			return true
+		})
 	}
 	xs := c.expr(s.X)
 	keyUsed := s.Key != nil && !isBlank(s.Key)
@@ -2626,6 +2678,19 @@ func (c *fctx) callN(x *ast.CallExpr, nres int) string {
 		}
 		for i, a := range x.Args {
 			pt := sig.Params().At(i).Type()
+			if isInterface(pt) && !isErrorType(pt) && isInterface(c.info.TypeOf(a)) {
+				// an interface value handed on to an opaque function: not represented (the opaque
+				// function stands for "the callee applied to that value"); it must be a parameter
+				id, isId := unparen(a).(*ast.Ident)
+				var v *types.Var
+				if isId {
+					v, _ = c.info.Uses[id].(*types.Var)
+				}
+				if v == nil || !(c.isParam(v) || c.ifaceLocals[v]) {
+					c.fail(a.Pos(), "interface value passed to the opaque %s that is not a parameter", name)
+				}
+				continue
+			}
 			if isInterface(pt) && !isErrorType(pt) && !isInterface(c.info.TypeOf(a)) {
 				pt = c.info.TypeOf(a) // an opaque function applied to a value of concrete type
 			}
